@@ -1,3 +1,361 @@
-import LokiModel.C25.Model
+import LokiModel.C25.Lemmas
+/-!
+# C25 — renaming, duplicating and removing items keeps the scheduler graph consistent
+
+`Consistent st` is the invariant of properties.jsonl C25 on the model state:
+
+* `present`  — every item of the graph is a program unit that exists (so every call / import of a processed unit, which
+               the graph closure turns into a graph item, names a unit present in the output: `C25_refs_present`);
+* `keys`     — every item-cache key is the current name of its item;
+* `closure`  — the graph nodes are exactly the items reachable from the seeds through the current sources
+               ("exactly the surviving items", and what later processing visits: C22 `C22_once`);
+* `cached`   — every graph item is in the cache;
+* `noerr`    — building the dependencies of a graph item does not raise (the graph was built successfully).
+
+Proved for **all** operations and operation sequences: `keys` and `closure` (`C25_op_preserves_keys`,
+`C25_op_closure`, `C25_ops_keys_closure`); `present` reduces to a local condition on the rewritten program units
+(`C25_present_of_localClosed`).  Proved in full for `RemoveKernel` and sequences of removals
+(`C25_rem_preserves_consistent`, `C25_rems_preserve_consistent`).  `_partial`: for `DuplicateKernel`,
+`ModuleWrapTransformation` and `DependencyTransformation` the local condition (`LocalClosed` of the rewritten units) is a
+hypothesis (`C25_op_preserves_consistent_partial`); that the real rewriting establishes it on the covered class is
+checked by the correspondence and the oracle only.
+-/
 namespace LokiModel.C25
+open LokiModel.C21 (Graph Err ReachG)
+
+structure Consistent (st : St) : Prop where
+  present : ∀ n ∈ st.graph.nodes, hasDef st.defs n = true
+  keys : ∀ e ∈ st.cache, e.1 = e.2
+  closure : ∀ n, n ∈ st.graph.nodes ↔ ReachG (childrenOf st.defs st.strict) (startOf st.defs st.seeds) n
+  cached : ∀ n ∈ st.graph.nodes, ∃ e ∈ st.cache, e.1 = n
+  noerr : ∀ n ∈ st.graph.nodes, ∃ cs, childrenOf st.defs st.strict n = .ok cs
+
+/-- every reference of every program unit held in memory resolves to a program unit (or, for a procedure of a module
+that does not exist, the module itself would have to exist: it does not, so such a reference violates the condition) -/
+def LocalClosed (ds : List Def) : Prop := ∀ d ∈ ds, ∀ r ∈ d.refs, hasDef ds (resolveRef ds r) = true
+
+/-- non-vacuity of the local condition: driver `r0` calling the module kernel `m#r1` -/
+example : LocalClosed [⟨.proc "" "r0", [.proc "m" "r1"], "f0", true⟩, ⟨.mod "m", [], "f1", false⟩,
+    ⟨.proc "m" "r1", [], "f1", false⟩] := by
+  unfold LocalClosed
+  decide
+
+/-- every call and import of a processed unit names a graph item that is present -/
+theorem C25_refs_present {st : St} (h : Consistent st) {n : Nm} (hn : n ∈ st.graph.nodes) {cs : List Nm}
+    (hc : childrenOf st.defs st.strict n = .ok cs) {c : Nm} (hcc : c ∈ cs) :
+    c ∈ st.graph.nodes ∧ hasDef st.defs c = true := by
+  have : c ∈ st.graph.nodes := (h.closure c).2 (ReachG.step ((h.closure n).1 hn) hc hcc)
+  exact ⟨this, h.present c this⟩
+
+/-! ## `keys`: all operations -/
+
+theorem rediscover_fields {st st' : St} (h : rediscover st = .ok st') :
+    st'.defs = st.defs ∧ st'.cache = st.cache ∧ st'.seeds = st.seeds ∧ st'.strict = st.strict ∧
+    discover st.defs st.strict st.seeds = .ok st'.graph := by
+  unfold rediscover at h
+  cases hd : discover st.defs st.strict st.seeds with
+  | error e => simp [hd] at h
+  | ok g =>
+    simp only [hd] at h
+    injection h with h
+    subst h
+    exact ⟨rfl, rfl, rfl, rfl, rfl⟩
+
+theorem rekey_keys (cache : List (Nm × Nm)) (deleted : List Nm) : ∀ e ∈ rekey cache deleted, e.1 = e.2 := by
+  intro e he
+  unfold rekey at he
+  simp only [List.mem_map] at he
+  obtain ⟨n, _, rfl⟩ := he
+  rfl
+
+/-- `rekey_item_cache`: afterwards no two entries share a key -/
+theorem C25_rekey_nodup (cache : List (Nm × Nm)) (deleted : List Nm) : ((rekey cache deleted).map (·.1)).Nodup := by
+  unfold rekey
+  simp only [List.map_map]
+  have : ((fun x : Nm × Nm => x.1) ∘ fun n : Nm => (n, n)) = id := rfl
+  rw [this, List.map_id]
+  exact nodup_dedupNm _
+
+/-- `rekey_item_cache`: an item that is not deleted is found under its current name -/
+theorem C25_rekey_complete (cache : List (Nm × Nm)) (deleted : List Nm) (e : Nm × Nm) (he : e ∈ cache)
+    (hd : e.2 ∉ deleted) : (e.2, e.2) ∈ rekey cache deleted := by
+  unfold rekey
+  simp only [List.mem_map]
+  refine ⟨e.2, ?_, rfl⟩
+  rw [mem_dedupNm]
+  simp only [List.mem_map, List.mem_filter, decide_eq_true_eq]
+  exact ⟨(e.2, e.2), ⟨e, ⟨he, hd⟩, rfl⟩, rfl⟩
+
+theorem reread_keys {st : St} (files : List String) (h : ∀ e ∈ st.cache, e.1 = e.2) :
+    ∀ e ∈ (reread st files).cache, e.1 = e.2 := by
+  intro e he
+  unfold reread at he
+  simp only [List.mem_append, List.mem_map] at he
+  rcases he with he | ⟨d, _, rfl⟩
+  · exact h e he
+  · rfl
+
+theorem dupOne_keys (suf msuf : String) (P : List Nm) (st : St) (t : Nm) (h : ∀ e ∈ st.cache, e.1 = e.2) :
+    ∀ e ∈ (dupOne suf msuf P st t).cache, e.1 = e.2 := by
+  intro e he
+  unfold dupOne at he
+  simp only [List.mem_append, List.mem_map] at he
+  rcases he with he | ⟨d, _, rfl⟩
+  · exact h e he
+  · rfl
+
+theorem dupFold_keys (suf msuf : String) (P : List Nm) : ∀ (ts : List Nm) (st : St),
+    (∀ e ∈ st.cache, e.1 = e.2) → ∀ e ∈ (ts.foldl (dupOne suf msuf P) st).cache, e.1 = e.2
+  | [], _, h => h
+  | t :: ts, st, h => by
+    simp only [List.foldl_cons]
+    exact dupFold_keys suf msuf P ts _ (dupOne_keys suf msuf P st t h)
+
+/-- **cache keys = current names** is preserved by every operation, in planning and in conversion mode -/
+theorem C25_op_preserves_keys (plan : Bool) (st st' : St) (op : Op) (h : ∀ e ∈ st.cache, e.1 = e.2)
+    (ha : applyOp plan st op = .ok st') : ∀ e ∈ st'.cache, e.1 = e.2 := by
+  cases op with
+  | rem k =>
+    simp only [applyOp, opRem] at ha
+    rw [(rediscover_fields ha).2.1]
+    exact h
+  | dup k sub suf msuf =>
+    simp only [applyOp, opDup] at ha
+    rw [(rediscover_fields ha).2.1]
+    exact dupFold_keys suf msuf _ _ st h
+  | wrap msuf =>
+    simp only [applyOp, opWrap] at ha
+    split at ha
+    · rw [(rediscover_fields ha).2.1]; exact h
+    · rw [(rediscover_fields ha).2.1]
+      apply reread_keys
+      intro e he
+      simp only [List.mem_append, List.mem_map] at he
+      rcases he with he | ⟨d, _, rfl⟩
+      · exact rekey_keys _ _ e he
+      · rfl
+  | dep suf msuf =>
+    simp only [applyOp, opDep] at ha
+    split at ha
+    · rw [(rediscover_fields ha).2.1]; exact h
+    · rw [(rediscover_fields ha).2.1]
+      apply reread_keys
+      intro e he
+      exact rekey_keys _ _ e he
+
+/-! ## `closure`: all operations -/
+
+theorem rediscover_closure {st st' : St} (h : rediscover st = .ok st') :
+    ∀ n, n ∈ st'.graph.nodes ↔ ReachG (childrenOf st'.defs st'.strict) (startOf st'.defs st'.seeds) n := by
+  obtain ⟨h1, _, h3, h4, h5⟩ := rediscover_fields h
+  intro n
+  rw [h1, h3, h4]
+  exact discover_nodes h5 n
+
+/-- **graph nodes = the items reachable from the seeds in the current sources**, after every operation -/
+theorem C25_op_closure (plan : Bool) (st st' : St) (op : Op) (ha : applyOp plan st op = .ok st') :
+    ∀ n, n ∈ st'.graph.nodes ↔ ReachG (childrenOf st'.defs st'.strict) (startOf st'.defs st'.seeds) n := by
+  cases op with
+  | rem k => simp only [applyOp, opRem] at ha; exact rediscover_closure ha
+  | dup k sub suf msuf => simp only [applyOp, opDup] at ha; exact rediscover_closure ha
+  | wrap msuf =>
+    simp only [applyOp, opWrap] at ha
+    split at ha <;> exact rediscover_closure ha
+  | dep suf msuf =>
+    simp only [applyOp, opDep] at ha
+    split at ha <;> exact rediscover_closure ha
+
+/-- lifted to operation sequences by list induction -/
+theorem C25_ops_keys_closure (plan : Bool) : ∀ (ops : List Op) (st st' : St), ops ≠ [] →
+    (∀ e ∈ st.cache, e.1 = e.2) → applyOps plan st ops = .ok st' →
+    (∀ e ∈ st'.cache, e.1 = e.2) ∧
+    (∀ n, n ∈ st'.graph.nodes ↔ ReachG (childrenOf st'.defs st'.strict) (startOf st'.defs st'.seeds) n)
+  | [], _, _, hne, _, _ => absurd rfl hne
+  | op :: ops, st, st', _, hk, ha => by
+    simp only [applyOps] at ha
+    cases h1 : applyOp plan st op with
+    | error e => simp [h1] at ha
+    | ok st1 =>
+      simp only [h1] at ha
+      have hk1 := C25_op_preserves_keys plan st st1 op hk h1
+      cases ops with
+      | nil =>
+        simp only [applyOps] at ha
+        injection ha with ha
+        subst ha
+        exact ⟨hk1, C25_op_closure plan st st1 op h1⟩
+      | cons op2 ops2 => exact C25_ops_keys_closure plan (op2 :: ops2) st1 st' (by simp) hk1 ha
+
+/-! ## `present` -/
+
+/-- the start nodes have program units by construction (`SGraph._create_item` finds them in the cache) -/
+theorem startOf_present (ds : List Def) (seeds : List Nm) : ∀ s ∈ startOf ds seeds, hasDef ds s = true := by
+  intro s hs
+  unfold startOf at hs
+  rw [mem_dedupNm, List.mem_filter] at hs
+  exact hs.2
+
+/-- reduction of the global statement to a local one: if the graph is the closure and every reference of every unit
+in memory resolves, every graph item is present -/
+theorem C25_present_of_localClosed (st : St)
+    (hcl : ∀ n, n ∈ st.graph.nodes ↔ ReachG (childrenOf st.defs st.strict) (startOf st.defs st.seeds) n)
+    (hl : LocalClosed st.defs) : ∀ n ∈ st.graph.nodes, hasDef st.defs n = true := by
+  intro n hn
+  refine closed_reach (fun x => hasDef st.defs x = true) (startOf_present _ _) ?_ n ((hcl n).1 hn)
+  intro a d _ hd r hr
+  exact hl d (findDef_some hd).1 r hr
+
+/-! ## RemoveKernel: the full invariant -/
+
+def remDefs (P : List Nm) (k : String) (ds : List Def) : List Def :=
+  ds.map (fun d => if d.name ∈ P then { d with refs := d.refs.filter (fun r => !(r.isProc && r.loc == k)) } else d)
+
+theorem findDef_map (f : Def → Def) (hf : ∀ d, (f d).name = d.name) : ∀ (ds : List Def) (n : Nm),
+    findDef (ds.map f) n = (findDef ds n).map f
+  | [], _ => rfl
+  | d :: ds, n => by
+    have ih := findDef_map f hf ds n
+    unfold findDef at ih ⊢
+    rw [List.map_cons, List.find?_cons, List.find?_cons, hf d]
+    by_cases hn : d.name = n
+    · rw [decide_eq_true hn]; rfl
+    · rw [decide_eq_false hn]; exact ih
+
+theorem remDefs_find (P : List Nm) (k : String) (ds : List Def) (n : Nm) :
+    findDef (remDefs P k ds) n = (findDef ds n).map
+      (fun d => if d.name ∈ P then { d with refs := d.refs.filter (fun r => !(r.isProc && r.loc == k)) } else d) := by
+  unfold remDefs
+  apply findDef_map
+  intro d
+  by_cases hp : d.name ∈ P
+  · rw [if_pos hp]
+  · rw [if_neg hp]
+
+theorem remDefs_hasDef (P : List Nm) (k : String) (ds : List Def) (n : Nm) :
+    hasDef (remDefs P k ds) n = hasDef ds n := by
+  unfold hasDef
+  rw [remDefs_find]
+  cases findDef ds n <;> rfl
+
+theorem remDefs_resolve (P : List Nm) (k : String) (ds : List Def) (r : Nm) :
+    resolveRef (remDefs P k ds) r = resolveRef ds r := by
+  unfold resolveRef
+  cases r with
+  | proc s l => simp only [remDefs_hasDef]
+  | mod m => rfl
+
+/-- **RemoveKernel preserves the invariant** (all states, all kernel names, planning and conversion) -/
+theorem C25_rem_preserves_consistent (st st' : St) (k : String) (h : Consistent st) (ha : opRem k st = .ok st') :
+    Consistent st' := by
+  unfold opRem at ha
+  obtain ⟨h1, h2, h3, h4, h5⟩ := rediscover_fields ha
+  have hcl := rediscover_closure ha
+  simp only at h1 h2 h3 h4 h5
+  -- every reachable node of the new graph is a node of the old graph
+  have hsub : ∀ n, n ∈ st'.graph.nodes → n ∈ st.graph.nodes := by
+    intro n hn
+    have hr := (hcl n).1 hn
+    rw [h1, h3, h4] at hr
+    refine closed_reach (ds := remDefs (processed st) k st.defs) (fun x => x ∈ st.graph.nodes) ?_ ?_ n hr
+    · intro s hs
+      refine (h.closure s).2 (ReachG.seed ?_)
+      unfold startOf at hs ⊢
+      rw [mem_dedupNm, List.mem_filter] at hs ⊢
+      exact ⟨hs.1, by rw [← remDefs_hasDef (processed st) k]; exact hs.2⟩
+    · intro a d ha' hd r hr'
+      rw [remDefs_find] at hd
+      cases hd0 : findDef st.defs a with
+      | none => simp [hd0] at hd
+      | some d0 =>
+        simp only [hd0, Option.map_some, Option.some.injEq] at hd
+        have hr0 : r ∈ d0.refs := by
+          subst hd
+          by_cases hp : d0.name ∈ processed st
+          · simp only [hp, if_true, List.mem_filter] at hr'; exact hr'.1
+          · simp only [hp, if_false] at hr'; exact hr'
+        rw [remDefs_resolve]
+        obtain ⟨cs, hco⟩ := h.noerr a ha'
+        refine (h.closure _).2 (ReachG.step ((h.closure a).1 ha') hco ?_)
+        unfold childrenOf at hco
+        simp only [hd0] at hco
+        split at hco
+        · cases hco
+        · injection hco with hco
+          subst hco
+          rw [mem_dedupNm]
+          exact List.mem_map.2 ⟨r, hr0, rfl⟩
+  refine ⟨?_, ?_, hcl, ?_, ?_⟩
+  · intro n hn
+    rw [h1]
+    have := remDefs_hasDef (processed st) k st.defs n
+    unfold remDefs at this
+    rw [this]
+    exact h.present n (hsub n hn)
+  · rw [h2]; exact h.keys
+  · intro n hn
+    rw [h2]
+    exact h.cached n (hsub n hn)
+  · intro n hn
+    rw [h1, h4]
+    exact discover_noerr h5 n hn
+
+/-- sequences of removals (list induction) -/
+theorem C25_rems_preserve_consistent : ∀ (ks : List String) (st st' : St), Consistent st →
+    applyOps false st (ks.map Op.rem) = .ok st' → Consistent st'
+  | [], st, st', h, ha => by
+    simp only [List.map_nil, applyOps] at ha
+    injection ha with ha
+    subst ha
+    exact h
+  | k :: ks, st, st', h, ha => by
+    simp only [List.map_cons, applyOps, applyOp] at ha
+    cases h1 : opRem k st with
+    | error e => simp [h1] at ha
+    | ok st1 =>
+      simp only [h1] at ha
+      exact C25_rems_preserve_consistent ks st1 st' (C25_rem_preserves_consistent st st1 k h h1) ha
+
+/-! ## the other operations: `_partial` -/
+
+theorem rediscover_noerr {st st' : St} (h : rediscover st = .ok st') :
+    ∀ n ∈ st'.graph.nodes, ∃ cs, childrenOf st'.defs st'.strict n = .ok cs := by
+  obtain ⟨h1, _, _, h4, h5⟩ := rediscover_fields h
+  intro n hn
+  rw [h1, h4]
+  exact discover_noerr h5 n hn
+
+theorem C25_op_noerr (plan : Bool) (st st' : St) (op : Op) (ha : applyOp plan st op = .ok st') :
+    ∀ n ∈ st'.graph.nodes, ∃ cs, childrenOf st'.defs st'.strict n = .ok cs := by
+  cases op with
+  | rem k => simp only [applyOp, opRem] at ha; exact rediscover_noerr ha
+  | dup k sub suf msuf => simp only [applyOp, opDup] at ha; exact rediscover_noerr ha
+  | wrap msuf =>
+    simp only [applyOp, opWrap] at ha
+    split at ha <;> exact rediscover_noerr ha
+  | dep suf msuf =>
+    simp only [applyOp, opDep] at ha
+    split at ha <;> exact rediscover_noerr ha
+
+/-- every program unit in memory has a cache entry under its name -/
+def DefsCached (st : St) : Prop := ∀ d ∈ st.defs, ∃ e ∈ st.cache, e.1 = d.name
+
+/-- **any operation** (duplicate, remove, wrap, suffix; planning or conversion): the invariant holds afterwards provided the
+rewritten program units are locally closed and cached.  `_partial`: `LocalClosed` / `DefsCached` of the *result* are
+hypotheses here; what is missing is their derivation from `Consistent st` and the operation's definition under the
+side conditions that exclude the known-finding classes (no driver among the callees, fresh names, one program unit per
+file, interface includes present).  On the real code they are checked per run (correspondence + oracle). -/
+theorem C25_op_preserves_consistent_partial (plan : Bool) (st st' : St) (op : Op) (h : Consistent st)
+    (ha : applyOp plan st op = .ok st') (hl : LocalClosed st'.defs) (hc : DefsCached st') : Consistent st' := by
+  have hcl := C25_op_closure plan st st' op ha
+  have hp := C25_present_of_localClosed st' hcl hl
+  refine ⟨hp, C25_op_preserves_keys plan st st' op h.keys ha, hcl, ?_, C25_op_noerr plan st st' op ha⟩
+  intro n hn
+  have := hp n hn
+  unfold hasDef at this
+  cases hd : findDef st'.defs n with
+  | none => simp [hd] at this
+  | some d =>
+    obtain ⟨e, he, hen⟩ := hc d (findDef_some hd).1
+    exact ⟨e, he, hen.trans (findDef_some hd).2⟩
+
 end LokiModel.C25
